@@ -322,6 +322,15 @@ def index_pairing(ctx, meths, rule='C15.D1'):
         n_writers += 1
         last_i, last_st, kind, owner = row_writes[-1]
         # a freshly constructed grid has no index yet (Grid.__init__ sets _index = None)
+        shared_idx = [n for n in walk_no_nested(fn) if isinstance(n, ast.Assign)
+                      and any(norm(t) == '%s._index' % owner for t in n.targets)
+                      and not (isinstance(n.value, ast.Constant) and n.value.value is None)]
+        if owner != s and shared_idx:
+            ctx.violation(rule, '%s::Grid.%s' % (F, name), norm(shared_idx[0]),
+                          'g2 = grid[0:1]: g2 shares (or copies) the index of grid, so g2["id of a row outside the slice"] '
+                          'returns a row that is not in g2', 'the derived grid gets the index `%s` instead of starting '
+                          'without one' % norm(shared_idx[0].value), file=F, line=shared_idx[0].lineno, engine='E6')
+            continue
         if owner != s and _fresh_grid_var(fn, owner, meths) and _init_index_none(meths):
             ctx.ob(rule, 'Grid.%s hands rows to the freshly built grid `%s`, whose index starts as None' % (name, owner),
                    True, '%s:%d' % (F, fn.lineno))
